@@ -127,7 +127,7 @@ func newC20World() (*c20W, error) {
 				return nil
 			},
 			goidc.CIBATokenDeliveryModePoll),
-		provider.WithPAR(60),
+		provider.WithPAR(60), provider.WithUnregisteredRedirectURIsForPAR(),
 		provider.WithPKCE(goidc.CodeChallengeMethodSHA256),
 		provider.WithTokenAuthnMethods(goidc.ClientAuthnSecretPost, goidc.ClientAuthnPrivateKeyJWT, goidc.ClientAuthnNone),
 		provider.WithPrivateKeyJWTSignatureAlgs(goidc.ES256),
@@ -253,6 +253,9 @@ func (w *c20W) flow(r *mrand.Rand) {
 		q := url.Values{"client_id": {c.id}, "response_type": {"code"}, "scope": {"openid email offline_access"}, "redirect_uri": {c13Redirect},
 			"state": {"s"}, "nonce": {"n"}, "code_challenge": {thumb(verifier)}, "code_challenge_method": {"S256"}}
 		if r.Intn(3) == 0 {
+			if r.Intn(2) == 0 {
+				q.Set("redirect_uri", fmt.Sprintf("https://unregistered%d.example/cb", r.Intn(1000)))
+			}
 			m := w.form("/par", w.authn(r, c, cloneValues(q)))
 			if ru := str(m, "request_uri"); ru != "" {
 				w.put("request_uri", ru+"|"+c.id)
